@@ -105,6 +105,80 @@ Theorem sel_in_src_is_keep (pins sel : list spin) : NoDup pins ->
   sel_in_src pins sel = (keep sel pins, sel).
 Proof. intros H. unfold sel_in_src, keep. rewrite sel_fold by exact H. reflexivity. Qed.
 
+(* the pin list of a joined structure: A's kept pins then B's kept pins, each indexed by its position *)
+Lemma rem_fold_filter (sel : list spin) : forall pins, NoDup pins ->
+  fold_left (fun l p => remove1 p l) sel pins = filter (fun p => negb (mem p sel)) pins.
+Proof.
+  intros pins H.
+  pose proof (sel_fold sel pins [] H) as E.
+  assert (G : forall (l : list spin) st,
+             fst (fold_left (fun (st : list spin * list spin) p => (remove1 p (fst st), snd st ++ [p])) l st)
+             = fold_left (fun l p => remove1 p l) l (fst st)).
+  { induction l as [|x r IH]; intros st; simpl; [reflexivity|]. rewrite IH. reflexivity. }
+  specialize (G sel (pins, [])). cbn [fst] in G. rewrite <- G, E. reflexivity.
+Qed.
+
+Lemma app_disj {A} (l l' : list A) x : NoDup (l ++ l') -> In x l -> In x l' -> False.
+Proof.
+  induction l as [|y r IH]; simpl; intros H Hl Hl'; [exact Hl|].
+  inversion H as [|? ? Hy Hr]; subst. destruct Hl as [->|Hl].
+  - apply Hy. apply in_or_app. right. exact Hl'.
+  - exact (IH Hr Hl Hl').
+Qed.
+
+Lemma add_pin_loop : forall l pl pd n, NoDup (pl ++ l) -> List.length pl = n ->
+  fold_left (fun (st : list spin * list (spin * nat) * nat * bool) pin =>
+               let '(pin_list, pin_dic, N, err) := st in
+               if err then st else
+               if mem pin pin_list then (pin_list, pin_dic, N, true)
+               else (pin_list ++ [pin], pin_dic ++ [(pin, N)], (N + 1)%nat, false)) l (pl, pd, n, false)
+  = (pl ++ l, pd ++ combine l (seq n (List.length l)), (n + List.length l)%nat, false).
+Proof.
+  induction l as [|x r IH]; intros pl pd n Hn Hl; simpl.
+  - rewrite !app_nil_r, Nat.add_0_r. reflexivity.
+  - assert (Hx : mem x pl = false).
+    { apply mem_nIn. intros Hin. apply NoDup_remove_2 in Hn. apply Hn. apply in_or_app. left. exact Hin. }
+    rewrite Hx. rewrite IH.
+    + rewrite <- !app_assoc. cbn [app List.length seq combine].
+      replace (n + 1)%nat with (S n) by lia.
+      replace (S n + List.length r)%nat with (n + S (List.length r))%nat by lia. reflexivity.
+    + rewrite <- app_assoc. exact Hn.
+    + rewrite app_length. simpl. lia.
+Qed.
+
+Theorem join_pins_src_is_keep (pinsA pinsB xs ys : list spin) :
+  NoDup (pinsA ++ pinsB) -> incl xs pinsA -> incl ys pinsB ->
+  join_pins_src pinsA pinsB xs ys =
+    (keep xs pinsA ++ keep ys pinsB,
+     combine (keep xs pinsA ++ keep ys pinsB) (seq 0 (List.length (keep xs pinsA ++ keep ys pinsB))),
+     List.length (keep xs pinsA ++ keep ys pinsB), false).
+Proof.
+  intros Hn Hx Hy. unfold join_pins_src. cbv zeta.
+  rewrite rem_fold_filter by exact Hn. rewrite filter_app.
+  assert (EA : filter (fun p => negb (mem p (xs ++ ys))) pinsA = keep xs pinsA).
+  { unfold keep. apply filter_ext_in. intros p Hp. f_equal.
+    destruct (mem p xs) eqn:E1.
+    - apply mem_In in E1. apply mem_In. apply in_or_app. left. exact E1.
+    - apply mem_nIn. apply mem_nIn in E1. intros Hin. apply in_app_or in Hin. destruct Hin as [Hin|Hin]; [exact (E1 Hin)|].
+      exact (app_disj pinsA pinsB p Hn Hp (Hy p Hin)). }
+  assert (EB : filter (fun p => negb (mem p (xs ++ ys))) pinsB = keep ys pinsB).
+  { unfold keep. apply filter_ext_in. intros p Hp. f_equal.
+    destruct (mem p ys) eqn:E1.
+    - apply mem_In in E1. apply mem_In. apply in_or_app. right. exact E1.
+    - apply mem_nIn. apply mem_nIn in E1. intros Hin. apply in_app_or in Hin. destruct Hin as [Hin|Hin]; [|exact (E1 Hin)].
+      exact (app_disj pinsA pinsB p Hn (Hx p Hin) Hp). }
+  rewrite EA, EB.
+  rewrite (add_pin_loop (keep xs pinsA ++ keep ys pinsB) [] [] 0%nat); [reflexivity | | reflexivity].
+  cbn [app]. unfold keep.
+  assert (Hd : forall (f g : spin -> bool) a b, NoDup (a ++ b) -> NoDup (filter f a ++ filter g b)).
+  { intros f g a. induction a as [|y r IH]; intros b H; simpl.
+    - apply filter_NoDup. exact H.
+    - inversion H as [|? ? Hy' Hr]; subst. destruct (f y); [|apply IH; exact Hr].
+      simpl. constructor; [|apply IH; exact Hr]. intros Hin. apply Hy'. apply in_app_or in Hin. apply in_or_app.
+      destruct Hin as [Hin|Hin]; [left | right]; apply filter_In in Hin; tauto. }
+  apply Hd. exact Hn.
+Qed.
+
 End JoinSrcProof.
 
 Print Assumptions split_src_is_part.
@@ -112,3 +186,4 @@ Print Assumptions back_src_is_assemble.
 Print Assumptions back_index_is_position.
 Print Assumptions sel_out_src_is_keep.
 Print Assumptions sel_in_src_is_keep.
+Print Assumptions join_pins_src_is_keep.
